@@ -215,7 +215,7 @@ func VerifC04ScanToken() {
 	src := verifWindow("r", n, vf.Param("C04.wide", 0) == 0) // wide: any Unicode scalar value
 	expSym := vf.NondetIntRange("expSym", 0, 1) == 1
 	expMeta := vf.NondetIntRange("expMeta", 0, 1) == 1
-	vf.Unwind(2*n + 6)
+	vf.Unwind(4*n + 12)
 	vf.MaxDepth(n + 20)
 	vf.MustTerminate()
 	if expSym {
